@@ -80,7 +80,60 @@ class TLCResult:
         return self.exit == 0 and not self.errors
 
 
-_TUPLE = re.compile(r'^<<"([A-Z]+)", (.*)>>$')
+_TUPLE = re.compile(r'^<<\s*"([A-Z]+)",\s*(.*)>>$', re.S)
+
+
+def _depth(line):
+    """net <<,{,[,( nesting of a TLC output line, ignoring string literals"""
+    d = 0
+    i = 0
+    n = len(line)
+    instr = False
+    while i < n:
+        c = line[i]
+        if instr:
+            if c == "\\":
+                i += 1
+            elif c == '"':
+                instr = False
+        elif c == '"':
+            instr = True
+        elif line.startswith("<<", i):
+            d += 1
+            i += 1
+        elif line.startswith(">>", i):
+            d -= 1
+            i += 1
+        elif c in "{[(":
+            d += 1
+        elif c in "}])":
+            d -= 1
+        i += 1
+    return d
+
+
+def _join_wrapped(lines):
+    """TLC pretty-prints values wider than ~80 columns over several lines; re-join a printed
+    tuple that starts with << until its brackets balance."""
+    out = []
+    acc = None
+    depth = 0
+    for line in lines:
+        if acc is None:
+            if line.startswith("<<") and _depth(line) > 0:
+                acc = [line.strip()]
+                depth = _depth(line)
+            else:
+                out.append(line)
+        else:
+            acc.append(line.strip())
+            depth += _depth(line)
+            if depth <= 0:
+                out.append(" ".join(acc))
+                acc = None
+    if acc is not None:
+        out.append(" ".join(acc))
+    return out
 
 
 def _parse_tla_string(s):
@@ -273,13 +326,15 @@ class Check:
         r.wall = time.time() - t0
         r.stdout = p.stdout
         r.exit = p.returncode
-        for line in p.stdout.splitlines():
+        for line in _join_wrapped(p.stdout.splitlines()):
             m = _TUPLE.match(line)
             if m:
                 tag, rest = m.group(1), m.group(2)
                 try:
                     payload = _parse_simple("<<" + rest + ">>")
                 except Exception:
+                    if tag == "REJ":
+                        raise MachineryError("cannot parse TLC rejection line: %r" % line[:300])
                     payload = [rest]
                 if tag == "REJ":
                     r.rej.append(payload)
